@@ -81,6 +81,11 @@ def build(recipe):
             sc = np.atleast_1d(np.asarray(sc, dtype=np.float32))
             zp = np.atleast_1d(np.asarray(zp, dtype=np.int64))
             t["Quantization"] = {"Scale": sc, "ZeroPoint": zp, "QuantizedDimension": int(qdim)}
+            if recipe.get("minmax") and data is None and dtype in DTRANGE and len(sc) == 1:
+                # the optional real-valued range of the tensor (older converters / quantisation-aware training write it)
+                lo_, hi_ = DTRANGE[dtype]
+                t["Quantization"]["Min"] = np.array([float(sc[0]) * (lo_ - int(zp[0]))], np.float32)
+                t["Quantization"]["Max"] = np.array([float(sc[0]) * (hi_ - int(zp[0]))], np.float32)
         if shape_sig is not None:
             t["ShapeSignature"] = shape_sig
         if variable:
@@ -1043,7 +1048,10 @@ def gen_recipe(r, cfg=None, profile="mixed"):
     for i, v in enumerate(vals):
         if i >= len(inputs) and i not in outs and r.random() < cfg["extra_out_p"] and not v.get("dangling"):
             outs.append(i)
-    return dict(name="net", inputs=inputs, layers=layers, outputs=outs, dup_names=cfg["dup_names"])
+    rec_ = dict(name="net", inputs=inputs, layers=layers, outputs=outs, dup_names=cfg["dup_names"])
+    if r.random() < 0.15:
+        rec_["minmax"] = True
+    return rec_
 
 
 def gen_options(r, profile="mixed"):
